@@ -85,6 +85,76 @@ def run(P, C, tier):
             C.ob("R4", "order-precondition:" + bname.split("::")[-1], ok, b.loc(), "last.date > new.date is an Err")
         except mir.MissingAnchor as e:
             C.anchor_missing("R4", bname, e)
+    # ---- R4b: each construction path builds an entry from the entry's own data (its own date in particular)
+    C.rule("R6", "each path builds a history entry from the entry's own object/row: its own date, key, flag, entity (never the enclosing group's or room's)")
+    ENTRY_SITES = [
+        # (function, constructor regex, kind, {field position or name: expected own-source pattern})
+        ("room::load_auth_from_json", r"room::EntityRight::new$", "call", "right_map"),
+        ("room::load_user_from_json", "database::room::User", "aggr", "user_map"),
+    ]
+    for fn, ctor, kind, own in ENTRY_SITES:
+        try:
+            b = P.body(fn)
+        except mir.MissingAnchor as e:
+            C.anchor_missing("R6", fn, e)
+            continue
+        C.saw(b)
+        ops = []
+        if kind == "call":
+            for bi, t in b.calls_to(ctor):
+                ops = [(i, a) for i, a in enumerate(b.call_args(bi, expand_vars=True))]
+                site = b.loc(bi)
+        else:
+            for bi in b.live_blocks():
+                for si, st in enumerate(b.blocks[bi]["s"]):
+                    rv = st["rv"]
+                    if rv["r"] == "aggr" and rv.get("adt") == ctor:
+                        t = b.def_term(bi, si, rv, 0, expand_vars=True)
+                        ops = list(zip(t[5], t[4]))
+                        site = "%s:%d" % (b.file, st["at"][0])
+        if not ops:
+            C.anchor_missing("R6", fn + " constructor", "no %s" % ctor)
+            continue
+        for name, a in ops:
+            g = mir.has_call(a, r"serde_json::Map.*::get$|Map<.*>::get$|map::Map::get$")
+            if g is None:
+                C.ob("R6", "%s:%s" % (fn.split("::")[-1], name), False, site, "argument %s is not read from a JSON object" % name)
+                continue
+            # the object the value is read from: unexpanded receiver variable name
+            recv = None
+            for bi2, t2 in b.calls_to(r"Map.*::get$"):
+                if bi2 == g[3]:
+                    recv = field_path(b.call_args(bi2)[0])
+            C.ob("R6", "%s:%s" % (fn.split("::")[-1], name), recv == own, site,
+                 "entry field %s is read from `%s` (the entry's own object is `%s`): a date or flag taken from the enclosing group/room gives the entry another meaning after a restart than live or on import" % (name, recv, own))
+    # live and import paths: the entry date is the entry row's own mdate
+    for fn, want in (("room_node::EntityRightNode::parse", "self.node.mdate"), ("room_node::UserNode::parse", "self.node.mdate")):
+        b = P.body(fn, required=False)
+        if b is None:
+            C.anchor_missing("R6", fn, "missing")
+            continue
+        C.saw(b)
+        dates = []
+        for bi, t in b.calls_to(r"room::EntityRight::new$"):
+            dates.append(field_path(b.call_args(bi, expand_vars=True)[0]))
+        for bi in b.live_blocks():
+            for si, st in enumerate(b.blocks[bi]["s"]):
+                rv = st["rv"]
+                if rv["r"] == "aggr" and rv.get("adt") == "database::room::User":
+                    t = b.def_term(bi, si, rv, 0, expand_vars=True)
+                    dates.append(field_path(t[4][t[5].index("date")]))
+        C.ob("R6", "%s:date" % fn.split("::")[-2], bool(dates) and all(d == want for d in dates), b.loc(), "entry date on the import path: %s (expected the entry row's own %s)" % (dates, want))
+    for fn, callers in (("room::entity_right_from_json", r"room::entity_right_from_json$"), ("room::user_from_json", r"room::user_from_json$")):
+        sites = P.call_sites(callers)
+        okc = bool(sites)
+        seen_args = []
+        for cb, bi, t in sites:
+            a = cb.call_args(bi)
+            da = [field_path(x) for x in a if field_path(x).endswith("mdate")]
+            ja = [field_path(x) for x in a if field_path(x) == "json" or field_path(x).endswith("_json")]
+            seen_args.append(da)
+            okc = okc and len(da) == 1 and da[0].endswith("node.mdate")
+        C.ob("R6", "%s:date" % fn.split("::")[-1], okc, "", "entry date on the live path: the mutated entry row's own mdate at every call site (%s)" % seen_args)
     # ---- R2 (a) reload query
     lq = [c for p, c in P.consts.items() if p.endswith("RoomAuthorisations::LOAD_QUERY")]
     if len(lq) != 1 or not isinstance(lq[0]["v"], str):
